@@ -13,6 +13,8 @@ import (
 	"pgregory.net/rapid"
 
 	"github.com/lidofinance/dc4bc/client/api/dto"
+	"github.com/lidofinance/dc4bc/client/types"
+	"github.com/lidofinance/dc4bc/fsm/types/requests"
 	"github.com/lidofinance/dc4bc/storage"
 
 	"verif/harness/vstat"
@@ -38,6 +40,9 @@ type c08Plan struct {
 	// LateDays > 0: the rebuilds from the log (R2..R4) happen that many days after the ceremony (every node process
 	// stopped meanwhile): the state is a function of the log, not of when the log is consumed
 	LateDays int `json:"late_days,omitempty"`
+	// DevKey = k > 0: participant k-1's machine announces another group key (same polynomial) in the first round: the
+	// round is cancelled, and who is recorded as failed with which error is part of the public state all must agree on
+	DevKey int `json:"dev_key,omitempty"`
 }
 
 func c08Gen(rt *rapid.T) c08Plan {
@@ -47,7 +52,8 @@ func c08Gen(rt *rapid.T) c08Plan {
 		Prefix: rapid.IntRange(0, 1000).Draw(rt, "prefix"), NodeA: rapid.IntRange(0, nt[0]-1).Draw(rt, "a"), NodeB: rapid.IntRange(0, nt[0]-1).Draw(rt, "b"),
 		Chunks: rapid.SliceOfN(rapid.IntRange(1, 9), 1, 12).Draw(rt, "chunks"), Restarts: rapid.SliceOfN(rapid.IntRange(0, 11), 0, 2).Draw(rt, "restarts"),
 		Ignore:   rapid.SliceOfN(rapid.IntRange(0, 1000), 0, 2).Draw(rt, "ignore"),
-		LateDays: rapid.SampledFrom([]int{0, 0, 0, 1, 8, 60}).Draw(rt, "lateDays")}
+		LateDays: rapid.SampledFrom([]int{0, 0, 0, 1, 8, 60}).Draw(rt, "lateDays"),
+		DevKey:   rapid.SampledFrom([]int{0, 0, 0, 1, 2, nt[0]}).Draw(rt, "devKey")}
 }
 
 // crossNodeView projects a node's dump of a round to what every node must agree on (time-free, without private deals).
@@ -206,6 +212,7 @@ func c08Run(t *testing.T, st *vstat.Stats, p c08Plan) (v *viol) {
 		}
 		faults, rejected := p.Faults, 0
 		declined := false
+		deviated := false
 		answer := func(i int) {
 			ops, _ := w.Nodes[i].Operations()
 			for _, op := range ops {
@@ -216,6 +223,22 @@ func c08Run(t *testing.T, st *vstat.Stats, p c08Plan) (v *viol) {
 						declined = true
 					}
 					continue
+				}
+				if p.DevKey > 0 && i == (p.DevKey-1)%p.N && op.DKGIdentifier == roundA && string(op.Type) == "state_dkg_master_key_await_confirmations" {
+					_, _ = w.AnswerWith(i, op, func(res *types.Operation) {
+						if len(res.ResultMsgs) != 1 || res.Event != "event_dkg_master_key_confirm_received" {
+							return
+						}
+						var req requests.DKGProposalMasterKeyConfirmationRequest
+						if json.Unmarshal(res.ResultMsgs[0].Data, &req) != nil || len(req.MasterKey) == 0 {
+							return
+						}
+						req.MasterKey = append([]byte{}, req.MasterKey...)
+						req.MasterKey[len(req.MasterKey)-1] ^= 1
+						res.ResultMsgs[0].Data, _ = json.Marshal(req)
+						deviated = true
+					})
+					return
 				}
 				_, _ = w.Answer(i, op) // in a cancelled round an operator's step may be refused; the log is what it is
 				return
@@ -519,6 +542,9 @@ func c08Run(t *testing.T, st *vstat.Stats, p c08Plan) (v *viol) {
 			}
 		}
 		st.Class(fmt.Sprintf("rounds=%d", len(rounds)))
+		if deviated {
+			st.Class("deviating-key-announcement")
+		}
 		st.ClassN("rejected-messages-in-log", rejected)
 		if p.Decline && p.Second && declined {
 			st.Class("declined-round")
